@@ -75,6 +75,16 @@ pub struct TcpSocketImpl {
 
 impl Socket for TcpSocketImpl {
     fn new(address: &SocketAddr, timeout_settings: &Option<TimeoutSettings>) -> GDResult<Self> {
+        #[cfg(gamedig_verif)]
+        if let Some(scripted) = crate::verif_hook::tcp_open(address, timeout_settings) {
+            let socket = Self {
+                socket: scripted?,
+                address: *address,
+            };
+            socket.apply_timeout(timeout_settings)?;
+            return Ok(socket);
+        }
+
         let socket = TimeoutSettings::get_connect_or_default(timeout_settings).map_or_else(
             || net::TcpStream::connect(address),
             |timeout| net::TcpStream::connect_timeout(address, timeout),
@@ -99,11 +109,23 @@ impl Socket for TcpSocketImpl {
     }
 
     fn send(&mut self, data: &[u8]) -> GDResult<()> {
+        #[cfg(gamedig_verif)]
+        if let Some(scripted) = crate::verif_hook::on_send(std::os::fd::AsRawFd::as_raw_fd(&self.socket), data) {
+            return scripted;
+        }
+
         self.socket.write(data).map_err(|e| PacketSend.context(e))?;
         Ok(())
     }
 
     fn receive(&mut self, size: Option<usize>) -> GDResult<Vec<u8>> {
+        #[cfg(gamedig_verif)]
+        if let Some(scripted) =
+            crate::verif_hook::on_receive(std::os::fd::AsRawFd::as_raw_fd(&self.socket), size, DEFAULT_PACKET_SIZE)
+        {
+            return scripted;
+        }
+
         let mut buf = Vec::with_capacity(size.unwrap_or(DEFAULT_PACKET_SIZE));
         self.socket
             .read_to_end(&mut buf)
@@ -128,6 +150,16 @@ pub struct UdpSocketImpl {
 
 impl Socket for UdpSocketImpl {
     fn new(address: &SocketAddr, timeout_settings: &Option<TimeoutSettings>) -> GDResult<Self> {
+        #[cfg(gamedig_verif)]
+        if let Some(scripted) = crate::verif_hook::udp_open(address, timeout_settings) {
+            let socket = Self {
+                socket: scripted?,
+                address: *address,
+            };
+            socket.apply_timeout(timeout_settings)?;
+            return Ok(socket);
+        }
+
         let socket = net::UdpSocket::bind("0.0.0.0:0").map_err(|e| SocketBind.context(e))?;
 
         let socket = Self {
@@ -149,6 +181,11 @@ impl Socket for UdpSocketImpl {
     }
 
     fn send(&mut self, data: &[u8]) -> GDResult<()> {
+        #[cfg(gamedig_verif)]
+        if let Some(scripted) = crate::verif_hook::on_send(std::os::fd::AsRawFd::as_raw_fd(&self.socket), data) {
+            return scripted;
+        }
+
         self.socket
             .send_to(data, self.address)
             .map_err(|e| PacketSend.context(e))?;
@@ -157,6 +194,13 @@ impl Socket for UdpSocketImpl {
     }
 
     fn receive(&mut self, size: Option<usize>) -> GDResult<Vec<u8>> {
+        #[cfg(gamedig_verif)]
+        if let Some(scripted) =
+            crate::verif_hook::on_receive(std::os::fd::AsRawFd::as_raw_fd(&self.socket), size, DEFAULT_PACKET_SIZE)
+        {
+            return scripted;
+        }
+
         let mut buf: Vec<u8> = vec![0; size.unwrap_or(DEFAULT_PACKET_SIZE)];
         let (number_of_bytes_received, _) = self
             .socket
